@@ -913,6 +913,7 @@ fn run_part2(
     queries: &[String],
     recs: &[RecSpec],
     rel: Option<&(Vec<RelRec>, Vec<RelQuery>)>,
+    rebuild: bool,
     out: &mut CaseOut,
 ) {
     let o = Oracle::new(rows);
@@ -1131,6 +1132,19 @@ fn run_part2(
                 if got {
                     out.stat("relationship_holds");
                 }
+                if rebuild {
+                    // the same question as the FIRST question to a namespace of its own: what a relationship query
+                    // answers does not depend on the queries before it
+                    let fresh = build_ns(rows);
+                    let alone = fresh.has_relationship(subject, &sym(&q.rel), &q.term.as_deref().map(sym), &q.target.as_deref().map(Ref::from), &resolve);
+                    unsafe { free_ns(fresh) };
+                    if alone != got {
+                        out.fail(
+                            "history_dependent",
+                            format!("has_relationship(record {}, {:?}, term {:?}, target {:?}) = {got} after the queries before it, {alone} on a fresh namespace", q.subject, q.rel, q.term, q.target),
+                        );
+                    }
+                }
                 if q.rel == "containedBy" && q.target.as_deref() == Some("t") && rrecs.len() == 3 && rrecs[0].tags.len() == 3 {
                     out.stat(&format!("first_tag_wins:subject{}={}", q.subject, got as u8));
                 }
@@ -1138,6 +1152,37 @@ fn run_part2(
                     out.stat("relationship_transitive_with_target");
                 }
                 rreplies.push(if got { "1" } else { "0" }.to_string());
+            }
+            if rebuild {
+                // the records CHANGE (every Ref now points at the next record: an equip moved to another site) and the
+                // same namespace is asked again: its answers are those of a fresh namespace given the new records
+                let rot = |r: &str| -> String {
+                    match r.strip_prefix('r').and_then(|n| n.parse::<usize>().ok()) {
+                        Some(n) => format!("r{}", (n + 1) % 6),
+                        None => r.to_string(),
+                    }
+                };
+                let moved: Vec<RelRec> = rrecs
+                    .iter()
+                    .map(|r| RelRec { key: r.key.clone(), tags: r.tags.iter().map(|(k, v)| (k.clone(), if k == "id" { v.clone() } else { v.as_deref().map(rot) })).collect() })
+                    .collect();
+                let dicts2: Vec<Dict> = moved.iter().map(|r| r.dict()).collect();
+                let resolve2 = |r: &Ref| -> Option<Dict> { moved.iter().position(|x| x.key.as_deref() == Some(r.value.as_str())).map(|i| dicts2[i].clone()) };
+                let fresh = build_ns(rows);
+                for q in rqs {
+                    let subject = &dicts2[q.subject.min(dicts2.len().saturating_sub(1))];
+                    let args = (sym(&q.rel), q.term.as_deref().map(sym), q.target.as_deref().map(Ref::from));
+                    let again = ns.has_relationship(subject, &args.0, &args.1, &args.2, &resolve2);
+                    let alone = fresh.has_relationship(subject, &args.0, &args.1, &args.2, &resolve2);
+                    if again != alone {
+                        out.fail(
+                            "history_dependent",
+                            format!("after the records changed, has_relationship(record {}, {:?}, term {:?}, target {:?}) = {again} on the namespace that answered for the old records, {alone} on a fresh one", q.subject, q.rel, q.term, q.target),
+                        );
+                    }
+                }
+                unsafe { free_ns(fresh) };
+                out.stat("relationship_records_moved");
             }
             // the model's records: every tag in key order, `id` included; a Ref value by its id
             let mut t = vec![rrecs.len().to_string()];
@@ -2047,7 +2092,7 @@ pub fn exec(label: &str, input: &str, out: &mut CaseOut) {
             {
                 // part 2 on a bounded number of query symbols (`associations` walks all defs per call)
                 let q2: Vec<String> = if queries.len() > 40 { queries.iter().step_by(queries.len() / 40 + 1).cloned().collect() } else { queries.clone() };
-                run_part2(&rows, ns, &q2, &recs, rel.as_ref(), out);
+                run_part2(&rows, ns, &q2, &recs, rel.as_ref(), true, out);
             }
             unsafe { free_ns(ns) };
         }
@@ -2079,7 +2124,7 @@ pub fn exec(label: &str, input: &str, out: &mut CaseOut) {
             {
                 let q2: Vec<String> = queries.iter().step_by(4).cloned().collect();
                 let rel = gen_rel(&mut rng, &db.rows, true);
-                run_part2(&db.rows, ns, &q2, &recs, Some(&rel), out);
+                run_part2(&db.rows, ns, &q2, &recs, Some(&rel), false, out);
             }
             unsafe { free_ns(ns) };
             let _ = label;
